@@ -29,15 +29,20 @@ func (mp metaPath) FilePath() string {
 	return filepath.Join(mp.bucket, mp.object)
 }
 
+// objectFileFunc locates the file that holds an object's contents.
+type objectFileFunc func(bucket, object string) (fs afero.Fs, path string)
+
 type metaStore struct {
 	fs          afero.Fs
+	objectFile  objectFileFunc
 	modTimeCalc modTimeCalc
 	modTimeRes  time.Duration
 }
 
-func newMetaStore(fs afero.Fs, modTimeCalc modTimeCalc) *metaStore {
+func newMetaStore(fs afero.Fs, modTimeCalc modTimeCalc, objectFile objectFileFunc) *metaStore {
 	b := &metaStore{
 		fs:          fs,
+		objectFile:  objectFile,
 		modTimeCalc: modTimeCalc,
 		modTimeRes:  -1,
 	}
@@ -90,7 +95,13 @@ func (ms *metaStore) loadMeta(bucket string, object string, size int64, mtime ti
 	if len(meta.Hash) == 0 || meta.Size != size || modDiff < -modRes || modDiff > modRes {
 		meta.Size = size
 		meta.ModTime = mtime
-		meta.Hash, err = hashFile(ms.fs, fullPath)
+		// The record is missing or stale (the object changed behind our back,
+		// or a write was interrupted before its record was saved): rebuild it
+		// from the object's contents, which live on the object filesystem, not
+		// next to the metadata.
+		objectFs, objectPath := ms.objectFile(bucket, object)
+		meta.File = objectPath
+		meta.Hash, err = hashFile(objectFs, objectPath)
 		if err != nil {
 			return nil, err
 		}
